@@ -236,6 +236,8 @@ type c03FakeConn struct {
 	cur     []c03Wcmd
 	closed  bool
 	endArgs [][]byte // arguments of the c03Scenario's last command
+	endName string   // … and its name (compared when it has no arguments)
+	endSet  bool
 	sawEnd  bool
 	done    chan struct{}
 	doneSet bool
@@ -270,7 +272,7 @@ func (c *c03FakeConn) Send(cmd string, args ...interface{}) error {
 		w.args = append(w.args, append([]byte{}, c03RenderArg(a)...))
 	}
 	c.cur = append(c.cur, w)
-	if c.endArgs != nil && len(w.args) == len(c.endArgs) {
+	if c.endSet && len(w.args) == len(c.endArgs) && (len(c.endArgs) > 0 || strings.EqualFold(cmd, c.endName)) {
 		same := true
 		for i := range w.args {
 			if !bytes.Equal(w.args[i], c.endArgs[i]) {
@@ -427,7 +429,7 @@ func c03RunSendScenario(f []string) string {
 	ds := dbSync.VerifC03NewSyncer(0, s.src, s.rid, utils.CheckpointKey, s.res, 0, 0, bufCap)
 	conn := &c03FakeConn{done: make(chan struct{})}
 	if len(items) > 0 {
-		conn.endArgs = items[len(items)-1].Args
+		conn.endArgs, conn.endName, conn.endSet = items[len(items)-1].Args, items[len(items)-1].Cmd, true
 	}
 	go ds.VerifC03Send(conn)
 	for i, it := range items {
@@ -469,7 +471,7 @@ func c03RunPipeScenario(f []string) string {
 	}
 	conn := &c03FakeConn{done: make(chan struct{})}
 	if len(cmds) > 0 {
-		conn.endArgs = cmds[len(cmds)-1].args
+		conn.endArgs, conn.endName, conn.endSet = cmds[len(cmds)-1].args, cmds[len(cmds)-1].name, true
 	}
 	rd := &c03ChunkReader{ch: make(chan []byte, len(cmds)+1), closed: make(chan struct{}), starved: make(chan struct{}), expect: len(cmds)}
 	go ds.VerifC03Send(conn)
